@@ -1004,6 +1004,39 @@ func (f *Frame) evalCall(e *spec.Call, st, old *State) TV {
 		}
 		_, has := x.capNames["captures$"+id.Name]
 		return TV{B.BoolC(has), types.Typ[types.Bool]}
+	case "strcount":
+		// strcount(s, sub): what strings.Count(s, sub) returns (an uninterpreted function, >= 0)
+		if len(e.Args) != 2 {
+			specErr("strcount(s, sub)")
+		}
+		return TV{x.strCount(f.evalTerm(e.Args[0], st, old), f.evalTerm(e.Args[1], st, old)), types.Typ[types.Int]}
+	case "aftercall":
+		// aftercall("callee", e): e evaluated in the state just after the (single) static call of
+		// callee made by the function under verification returned
+		if len(e.Args) != 2 {
+			specErr("aftercall(\"callee\", e)")
+		}
+		lit, ok := e.Args[0].(*spec.Lit)
+		if !ok {
+			specErr("aftercall: the callee is given as a string literal")
+		}
+		callee, err := strconv.Unquote(lit.Val)
+		if err != nil {
+			specErr("aftercall: %v", err)
+		}
+		var rec *callRec
+		for fr := f; fr != nil && rec == nil; fr = fr.outer {
+			if fr.callHist != nil {
+				rec = fr.callHist[callee]
+			}
+		}
+		if rec == nil || rec.post == nil {
+			specErr("aftercall(%q, e): no such call on any path", callee)
+		}
+		if rec.n > 1 {
+			specErr("aftercall(%q, e): the function calls it at %d sites; the history ghost covers a single call site", callee, rec.n)
+		}
+		return f.eval(e.Args[1], rec.post, old)
 	case "wascalled", "lastcall":
 		// ghost call history: wascalled("callee") is the path condition under which the function
 		// under verification made its (last) static call of callee; lastcall("callee", i) its i-th result
@@ -1026,6 +1059,11 @@ func (f *Frame) evalCall(e *spec.Call, st, old *State) TV {
 		}
 		if name == "wascalled" {
 			if rec == nil {
+				if !f.top && f.caller != nil {
+					// the contract is being assumed at a call site: the callee's own call history is
+					// not known there (it is a fact about its body, proved where the callee is verified)
+					return TV{B.Fresh("wascalled", smt.Bool), types.Typ[types.Bool]}
+				}
 				return TV{B.False(), types.Typ[types.Bool]}
 			}
 			if rec.n > 1 {
